@@ -21,8 +21,9 @@ def enum(run, **kw):
 PROPS = {
     "C01": {"jobs": [rapid("TestC01", 1500, 20000), enum("TestC01Sweep")]},
     "C02": {"jobs": [rapid("TestC02", 1500, 15000), enum("TestC02Product")]},
-    "C03": {"jobs": [rapid("TestC03Protocol", 1500, 10000)]},
+    "C03": {"jobs": [rapid("TestC03Protocol", 1500, 10000), rapid("TestC03Engine", 20000, 60000), enum("TestC03AllPairs")]},
     "C04": {"jobs": [rapid("TestC04", 1500, 10000)]},
     "C05": {"jobs": [rapid("TestC05", 1500, 15000)]},
+    "C07": {"jobs": [rapid("TestC07", 20000, 60000), enum("TestC07Bounded")]},
     "C06": {"jobs": [rapid("TestC06", 1200, 8000), enum("TestC06AllTTLs")]},
 }
